@@ -14,7 +14,9 @@ made through one object is visible through the other (`independent`).
 
 Parts: 1 (association lists, `WInv`, `Frame`, the specification of `sync`), 2 (the shape of every
 operation: `MutRel`/`MutSpec` for mutators, `FreshSpec`/`fresh_sync` for constructors), 3 (the theorems
-(1)–(4): `copyOp_fresh`, `copyOp_contents`, `mutator_frame`, `independent`, and the `_inv` theorems). -/
+(1)–(4): `copyOp_fresh`, `copyOp_contents`, `mutator_frame`, `independent`, and the `_inv` theorems; for
+`copy.deepcopy`: `deepcopyOp_fresh`, `deepcopyOp_contents` and `deepcopyOp_sharing`, the sharing of dict objects
+inside one complex is preserved by a deep copy). -/
 namespace W
 open Flat
 
@@ -1111,27 +1113,284 @@ theorem copyOp_fresh' {w w' : World} (hw : WInv w) (src h : String) (hc : copyOp
 theorem copyOp_absent (w : World) (src h : String) (hs : w.obj? src = none) : copyOp w src h = (.error .key, w) := by
   unfold copyOp; rw [hs]
 
-/-! ### deepcopy -/
+/-! ### deepcopy
 
+`copy.deepcopy` keeps a memo "identity of a source object ↦ its copy": dict objects shared by several simplices
+of the source are copied once and stay shared (between the corresponding simplices of the copy). `deepcopyOp`
+builds that memo (`dcMemo`: source cell id ↦ fresh cell id) with a fold over `s.attrs` and then maps every
+simplex to the fresh cell of its source cell (`dcObj`). -/
+
+section kfindMap
+variable {κ β γ : Type} [DecidableEq κ] [BEq κ] [LawfulBEq κ]
+
+/-- lookup after changing the values only -/
+theorem kfind_map_val (l : List (κ × β)) (g : β → γ) (k : κ) :
+    kfind (l.map (fun p => (p.1, g p.2))) k = (kfind l k).map g := by
+  induction l with
+  | nil => rfl
+  | cons p l ih =>
+    rw [List.map_cons, kfind_cons, kfind_cons, ih]
+    by_cases hp : p.1 = k <;> simp [hp]
+
+end kfindMap
+
+/-- one step of the loop of `deepcopyOp`: a source cell id that is already in the memo costs nothing, a new one
+gets a fresh cell holding the content of the source cell (read in the world `w` before the call) -/
+def dcStep (w : World) (acc : List (Nat × Nat) × World) (p : Name × Nat) : List (Nat × Nat) × World :=
+  match kfind acc.1 p.2 with
+  | some _ => acc
+  | none => let a := acc.2.alloc ((w.cell? p.2).getD []); (acc.1 ++ [(p.2, a.1)], a.2)
+
+/-- the memo of `deepcopyOp` (source cell id ↦ fresh cell id) and the world after the allocations -/
+def dcMemo (w : World) (s : Obj) : List (Nat × Nat) × World := s.attrs.foldl (dcStep w) ([], w.freshId.2)
+
+/-- the object created by `deepcopyOp` -/
+def dcObj (w : World) (s : Obj) : Obj :=
+  { rep := w.next, c := s.c, filt := s.filt,
+    attrs := s.attrs.map (fun p => (p.1, (kfind (dcMemo w s).1 p.2).getD p.2)) }
+
+theorem deepcopyOp_eq (w : World) (src h : String) (s : Obj) (hs : w.obj? src = some s) :
+    deepcopyOp w src h = (.ok (), (dcMemo w s).2.setObj h (dcObj w s)) := by
+  unfold deepcopyOp; rw [hs]; rfl
+
+theorem deepcopyOp_absent (w : World) (src h : String) (hs : w.obj? src = none) :
+    deepcopyOp w src h = (.error .key, w) := by
+  unfold deepcopyOp; rw [hs]
+
+/-- the invariant of the loop: the memo is injective, its values are fresh identities (above the new `rep`,
+which is `w.next`), and each of them is a cell holding the content of its source cell -/
+structure DcInv (w : World) (acc : List (Nat × Nat) × World) : Prop where
+  next_lt : w.next < acc.2.next
+  cell_lt : CellLt acc.2
+  val : ∀ d e, kfind acc.1 d = some e →
+    w.next < e ∧ e < acc.2.next ∧ acc.2.cell? e = some ((w.cell? d).getD [])
+  inj : ∀ d d' e, kfind acc.1 d = some e → kfind acc.1 d' = some e → d = d'
+
+/-- what the loop never touches, and: the memo only grows -/
+structure DcExt (a b : List (Nat × Nat) × World) : Prop where
+  objs : b.2.objs = a.2.objs
+  udict : b.2.udict = a.2.udict
+  embs : b.2.embs = a.2.embs
+  next_le : a.2.next ≤ b.2.next
+  cell_old : ∀ d, d < a.2.next → b.2.cell? d = a.2.cell? d
+  memo : ∀ d e, kfind a.1 d = some e → kfind b.1 d = some e
+
+theorem DcExt.refl (a : List (Nat × Nat) × World) : DcExt a a :=
+  ⟨rfl, rfl, rfl, Nat.le_refl _, fun _ _ => rfl, fun _ _ h => h⟩
+
+theorem DcExt.trans {a b c : List (Nat × Nat) × World} (x : DcExt a b) (y : DcExt b c) : DcExt a c where
+  objs := y.objs.trans x.objs
+  udict := y.udict.trans x.udict
+  embs := y.embs.trans x.embs
+  next_le := Nat.le_trans x.next_le y.next_le
+  cell_old d hd := (y.cell_old d (Nat.lt_of_lt_of_le hd x.next_le)).trans (x.cell_old d hd)
+  memo d e h := y.memo d e (x.memo d e h)
+
+theorem dcStep_spec (w : World) (acc : List (Nat × Nat) × World) (p : Name × Nat) (hi : DcInv w acc) :
+    DcInv w (dcStep w acc p) ∧ DcExt acc (dcStep w acc p) ∧ ∃ e, kfind (dcStep w acc p).1 p.2 = some e := by
+  unfold dcStep
+  cases hk : kfind acc.1 p.2 with
+  | some e => exact ⟨hi, DcExt.refl _, e, hk⟩
+  | none =>
+    obtain ⟨M, w0⟩ := acc
+    simp only at hk ⊢
+    generalize hv : (w.cell? p.2).getD [] = v
+    have key : ∀ d, kfind (M ++ [(p.2, (w0.alloc v).1)]) d = if d = p.2 then some w0.next else kfind M d := by
+      intro d
+      by_cases hd : d = p.2
+      · subst hd; rw [if_pos rfl]; exact kfind_append_single_self _ _ _ hk
+      · rw [if_neg hd]; exact kfind_append_single_ne _ _ hd
+    have hnl := hi.next_lt
+    simp only at hnl
+    refine ⟨⟨?_, alloc_cellLt w0 v hi.cell_lt, ?_, ?_⟩, ⟨rfl, rfl, rfl, ?_, ?_, ?_⟩, w0.next, ?_⟩
+    · show w.next < (w0.alloc v).2.next
+      rw [alloc_next]; omega
+    · intro d e h
+      show w.next < e ∧ e < (w0.alloc v).2.next ∧ (w0.alloc v).2.cell? e = some ((w.cell? d).getD [])
+      rw [key] at h
+      rw [alloc_next]
+      split_ifs at h with hd
+      · cases h
+        rw [hd, hv]
+        exact ⟨hnl, by omega, alloc_cell?_self w0 v hi.cell_lt⟩
+      · obtain ⟨h1, h2, h3⟩ := hi.val d e h
+        simp only at h2 h3
+        exact ⟨h1, by omega, by rw [alloc_cell?_ne w0 v (by omega)]; exact h3⟩
+    · intro d d' e h h'
+      rw [key] at h h'
+      split_ifs at h h' with h1 h2 h2
+      · rw [h1, h2]
+      · cases h
+        have := (hi.val d' _ h').2.1
+        simp only at this; omega
+      · cases h'
+        have := (hi.val d _ h).2.1
+        simp only at this; omega
+      · exact hi.inj d d' e h h'
+    · show w0.next ≤ (w0.alloc v).2.next
+      rw [alloc_next]; omega
+    · intro d hd
+      exact alloc_cell?_ne w0 v (by simp only at hd; omega)
+    · intro d e h
+      rw [key]
+      split_ifs with hd
+      · subst hd; rw [hk] at h; cases h
+      · exact h
+    · rw [key, if_pos rfl]
+
+theorem dcFold_spec (w : World) : ∀ (ps : List (Name × Nat)) (acc : List (Nat × Nat) × World), DcInv w acc →
+    DcInv w (ps.foldl (dcStep w) acc) ∧ DcExt acc (ps.foldl (dcStep w) acc) ∧
+      ∀ p ∈ ps, ∃ e, kfind (ps.foldl (dcStep w) acc).1 p.2 = some e := by
+  intro ps
+  induction ps with
+  | nil => intro acc hi; exact ⟨hi, DcExt.refl _, fun p hp => by cases hp⟩
+  | cons q rest ih =>
+    intro acc hi
+    rw [List.foldl_cons]
+    obtain ⟨i1, e1, c1⟩ := dcStep_spec w acc q hi
+    obtain ⟨i2, e2, c2⟩ := ih _ i1
+    refine ⟨i2, e1.trans e2, fun p hp => ?_⟩
+    rcases List.mem_cons.mp hp with rfl | hp
+    · obtain ⟨e, he⟩ := c1; exact ⟨e, e2.memo _ _ he⟩
+    · exact c2 p hp
+
+/-- the memo of `deepcopyOp`: everything the call allocates, in one statement -/
+theorem dcMemo_spec {w : World} (hw : WInv w) (s : Obj) :
+    DcInv w (dcMemo w s) ∧ DcExt ([], w.freshId.2) (dcMemo w s) ∧
+      ∀ d ∈ s.ids, ∃ e, kfind (dcMemo w s).1 d = some e := by
+  have h0 : DcInv w ([], w.freshId.2) :=
+    ⟨Nat.lt_succ_self _, (Frame.freshId w "").cell_lt hw.cell_lt,
+      fun d e h => (by rw [kfind_nil] at h; cases h), fun d d' e h => (by rw [kfind_nil] at h; cases h)⟩
+  obtain ⟨i, e, c⟩ := dcFold_spec w s.attrs _ h0
+  refine ⟨i, e, fun d hd => ?_⟩
+  obtain ⟨p, hp, rfl⟩ := List.mem_map.mp hd
+  exact c p hp
+
+/-- every cell id of the source is a key of the memo (whatever the world: the `getD` default in `deepcopyOp`
+is never used) -/
+theorem dcMemo_covers (w : World) (s : Obj) : ∀ d ∈ s.ids, ∃ e, kfind (dcMemo w s).1 d = some e := by
+  have : ∀ (ps : List (Name × Nat)) (acc : List (Nat × Nat) × World),
+      (∀ d e, kfind acc.1 d = some e → ∃ e', kfind (ps.foldl (dcStep w) acc).1 d = some e') ∧
+      ∀ p ∈ ps, ∃ e, kfind (ps.foldl (dcStep w) acc).1 p.2 = some e := by
+    intro ps
+    induction ps with
+    | nil => intro acc; exact ⟨fun d e h => ⟨e, h⟩, fun p hp => by cases hp⟩
+    | cons q rest ih =>
+      intro acc
+      rw [List.foldl_cons]
+      have hstep : (∀ d e, kfind acc.1 d = some e → ∃ e', kfind (dcStep w acc q).1 d = some e') ∧
+          ∃ e, kfind (dcStep w acc q).1 q.2 = some e := by
+        unfold dcStep
+        cases hk : kfind acc.1 q.2 with
+        | some e => exact ⟨fun d e h => ⟨e, h⟩, e, hk⟩
+        | none =>
+          refine ⟨fun d e h => ?_, acc.2.next, kfind_append_single_self _ _ _ hk⟩
+          have hd : d ≠ q.2 := by intro e'; subst e'; rw [hk] at h; cases h
+          exact ⟨e, by simp only; rw [kfind_append_single_ne _ _ hd]; exact h⟩
+      obtain ⟨a1, a2⟩ := ih (dcStep w acc q)
+      refine ⟨fun d e h => ?_, fun p hp => ?_⟩
+      · obtain ⟨e', he'⟩ := hstep.1 d e h; exact a1 d e' he'
+      · rcases List.mem_cons.mp hp with rfl | hp
+        · obtain ⟨e, he⟩ := hstep.2; exact a1 _ e he
+        · exact a2 p hp
+  intro d hd
+  obtain ⟨p, hp, rfl⟩ := List.mem_map.mp hd
+  exact (this s.attrs ([], w.freshId.2)).2 p hp
+
+/-- the dict identity of a simplex of the copy: the memo applied to the one of the source -/
+theorem dcObj_attr? (w : World) (s : Obj) (n : Name) :
+    (dcObj w s).attr? n = (s.attr? n).map (fun d => (kfind (dcMemo w s).1 d).getD d) := by
+  rw [attr?_eq, attr?_eq]
+  exact kfind_map_val s.attrs (fun d => (kfind (dcMemo w s).1 d).getD d) n
+
+theorem dcObj_names (w : World) (s : Obj) : (dcObj w s).attrs.map (·.1) = s.attrs.map (·.1) := by
+  unfold dcObj
+  simp only [List.map_map]
+  rfl
+
+theorem dcObj_ids (w : World) (s : Obj) {e : Nat} (he : e ∈ (dcObj w s).ids) :
+    ∃ d ∈ s.ids, kfind (dcMemo w s).1 d = some e := by
+  obtain ⟨q, hq, rfl⟩ := List.mem_map.mp he
+  have hq' : q ∈ s.attrs.map (fun p => (p.1, (kfind (dcMemo w s).1 p.2).getD p.2)) := hq
+  obtain ⟨p, hp, rfl⟩ := List.mem_map.mp hq'
+  have hd : p.2 ∈ s.ids := List.mem_map.mpr ⟨p, hp, rfl⟩
+  obtain ⟨e, he⟩ := dcMemo_covers w s p.2 hd
+  exact ⟨p.2, hd, by rw [he]; rfl⟩
+
+/-- **`deepcopy`, the common core of (1), (2) and the sharing theorem**: the call succeeds; the new object is
+made of fresh identities only and nothing that existed is touched (`FreshSpec`); same structure (the very same
+`C`, including the name counter), same filtration fields, an entry for exactly the simplices that have one in
+the source (in the same listing order); the dict of every simplex has the content of the source's; two
+simplices hold the same dict object in the copy iff they do in the source. -/
 theorem deepcopyOp_spec {w : World} (hw : WInv w) (src h : String) (s : Obj) (hs : w.obj? src = some s) :
     (deepcopyOp w src h).1 = .ok () ∧
     ∃ o', FreshSpec w h (deepcopyOp w src h).2 o' ∧ o'.c = s.c ∧ o'.filt = s.filt ∧
-      o'.attrs.map (·.1) = s.c.names ∧
-      ∀ n ∈ s.c.names, o'.dictOf (deepcopyOp w src h).2 n = s.dictOf w n := by
-  unfold deepcopyOp
-  rw [hs]
-  simp only
-  obtain ⟨fs, hc, hf, _, hnames, hd⟩ := fresh_sync hw (Frame.freshId w h)
-    { rep := w.freshId.1, c := emptyC, attrs := [], filt := s.filt } s.c (fun n => s.dictOf w n)
-    (Nat.le_refl _) (Nat.lt_succ_self _) rfl
-  exact ⟨trivial, _, fs, hc, hf, hnames, hd⟩
+      o'.attrs.map (·.1) = s.attrs.map (·.1) ∧
+      (∀ n, o'.dictOf (deepcopyOp w src h).2 n = s.dictOf w n) ∧
+      (∀ a b, o'.attr? a = o'.attr? b ↔ s.attr? a = s.attr? b) := by
+  rw [deepcopyOp_eq w src h s hs]
+  obtain ⟨inv, ext, cov⟩ := dcMemo_spec hw s
+  have f : Frame w ((dcMemo w s).2.setObj h (dcObj w s)) h :=
+    ((Frame.freshId w h).trans (Frame.of_objs_eq h ext.objs ext.udict ext.embs ext.next_le ext.cell_old
+      (fun _ => inv.cell_lt))).trans (Frame.setObj _ h _)
+  have hok : OK (dcMemo w s).2 (dcObj w s) := by
+    refine ⟨inv.next_lt, fun e he => ?_, fun e he => ?_⟩
+    · obtain ⟨d, _, hd⟩ := dcObj_ids w s he
+      exact (inv.val d e hd).2.1
+    · obtain ⟨d, _, hd⟩ := dcObj_ids w s he
+      rw [(inv.val d e hd).2.2]; rfl
+  refine ⟨rfl, dcObj w s, ⟨f, ?_, obj?_setObj_self _ _ _, Nat.le_refl _, fun e he => ?_⟩, rfl, rfl,
+    dcObj_names w s, fun n => ?_, fun a b => ?_⟩
+  · refine hw.of_frame f (fun x hx => ?_)
+    rw [obj?_setObj_self] at hx; cases hx
+    exact hok.setObj h _
+  · obtain ⟨d, _, hd⟩ := dcObj_ids w s he
+    exact Nat.le_of_lt (inv.val d e hd).1
+  · unfold Obj.dictOf
+    rw [dcObj_attr?]
+    cases ha : s.attr? n with
+    | none => rfl
+    | some d =>
+      obtain ⟨e, he⟩ := cov d (attr?_mem_ids ha)
+      simp only [Option.map_some, he, Option.getD_some, setObj_cell?]
+      rw [(inv.val d e he).2.2]; rfl
+  · rw [dcObj_attr?, dcObj_attr?]
+    constructor
+    · intro hab
+      cases ha : s.attr? a with
+      | none =>
+        cases hb : s.attr? b with
+        | none => rfl
+        | some d' => rw [ha, hb] at hab; cases hab
+      | some d =>
+        cases hb : s.attr? b with
+        | none => rw [ha, hb] at hab; cases hab
+        | some d' =>
+          rw [ha, hb] at hab
+          obtain ⟨e, he⟩ := cov d (attr?_mem_ids ha)
+          obtain ⟨e', he'⟩ := cov d' (attr?_mem_ids hb)
+          simp only [Option.map_some, he, he', Option.getD_some, Option.some.injEq] at hab
+          subst hab
+          rw [inv.inj d d' e he he']
+    · intro hab; rw [hab]
 
+/-- **(1) `deepcopy`**: every identity of the new object (its representation and all its dict objects) is
+fresh, every other object and every dict object of `w` is unchanged, the world stays well-formed -/
 theorem deepcopyOp_fresh {w : World} (hw : WInv w) (src h : String) (s : Obj) (hs : w.obj? src = some s) :
     ∃ o', (deepcopyOp w src h).2.obj? h = some o' ∧ w.next ≤ o'.rep ∧ (∀ d ∈ o'.ids, w.next ≤ d) ∧
       (∀ g, g ≠ h → (deepcopyOp w src h).2.obj? g = w.obj? g) ∧
       (∀ d, d < w.next → (deepcopyOp w src h).2.cell? d = w.cell? d) ∧ WInv (deepcopyOp w src h).2 := by
   obtain ⟨_, o', fs, _⟩ := deepcopyOp_spec hw src h s hs
   exact ⟨o', fs.explicit⟩
+
+/-- **`deepcopy` preserves the sharing of dict objects inside one complex** (and creates none): two simplices
+hold the same dict object in the copy iff they do in the source. Stated for all names `a`, `b` (for a name
+without an entry both sides read `none`), in particular for the simplices of the source. -/
+theorem deepcopyOp_sharing {w : World} (hw : WInv w) (src h : String) (s : Obj) (hs : w.obj? src = some s) :
+    ∃ o', (deepcopyOp w src h).2.obj? h = some o' ∧
+      ∀ a b, o'.attr? a = o'.attr? b ↔ s.attr? a = s.attr? b := by
+  obtain ⟨_, o', fs, _, _, _, _, hsh⟩ := deepcopyOp_spec hw src h s hs
+  exact ⟨o', fs.obj, hsh⟩
 
 /-! ### derived complexes: `flagComplex`, JSON round trip, `snap` -/
 
@@ -1438,13 +1697,20 @@ theorem copyOp_contents {w : World} (hw : WInv w) (src h : String) (s : Obj) (hs
   exact ⟨o', fs.obj, hc, hf, hres, hnames, fun n hn => hd n hn (copyNew_names_sub s.c n hn)⟩
 
 /-- (2) for `deepcopy`: same structure (the very same `C`, including the name counter), same filtration
-fields, dicts with the same content -/
+fields, an entry for exactly the simplices that have one in the source (same listing order), dicts with the
+same content (for every name `n`; in particular for every simplex of the source). The list of simplices with a
+dict is inherited from the source: it is `s.c.names` when the source's is (third-last conjunct; with the former
+definition, which ran `sync` over `s.c.names`, that held without the hypothesis; `WInv` does not relate
+`attrs` to `c.names`, so it cannot be dropped here: a `WInv` world may contain an object with simplices and
+`attrs = []`, whose deep copy has `attrs = []` as well). -/
 theorem deepcopyOp_contents {w : World} (hw : WInv w) (src h : String) (s : Obj) (hs : w.obj? src = some s) :
     ∃ o', (deepcopyOp w src h).2.obj? h = some o' ∧ o'.c = s.c ∧ o'.filt = s.filt ∧
-      o'.attrs.map (·.1) = s.c.names ∧
+      o'.attrs.map (·.1) = s.attrs.map (·.1) ∧
+      (s.attrs.map (·.1) = s.c.names → o'.attrs.map (·.1) = s.c.names) ∧
+      (∀ n, o'.dictOf (deepcopyOp w src h).2 n = s.dictOf w n) ∧
       ∀ n ∈ s.c.names, o'.dictOf (deepcopyOp w src h).2 n = s.dictOf w n := by
-  obtain ⟨_, o', fs, hc, hf, hn, hd⟩ := deepcopyOp_spec hw src h s hs
-  exact ⟨o', fs.obj, hc, hf, hn, hd⟩
+  obtain ⟨_, o', fs, hc, hf, hn, hd, _⟩ := deepcopyOp_spec hw src h s hs
+  exact ⟨o', fs.obj, hc, hf, hn, fun e => hn.trans e, hd, fun n _ => hd n⟩
 
 /-! ## (3) a mutator changes only its own object (and, for `c[s][k] = v`, one dict of it) -/
 
@@ -1852,5 +2118,72 @@ example :
     let w3 := (dictSetOp w2 "b" (.u 1) 5 7).2
     (w1.obj? "a").map (fun o => o.dictOf w1 (.u 1)) = some [] ∧
     (w3.obj? "a").map (fun o => o.dictOf w3 (.u 1)) = some [(5, 7)] := by decide
+
+/-! ### `deepcopy` on concrete worlds: the sharing of dict objects is preserved -/
+
+/-- `a = SimplicialComplex(); a.addSimplexWithBasis([1, 2, 3])`: the three points and the triangle share the one
+dict object created by the call (identity 1), the three edges have their own (2, 3, 4) -/
+def exT : World := (addBasisOp (newCx {} "a") "a" [.u 1, .u 2, .u 3] none none).2
+
+theorem exT_inv : WInv exT := addBasisOp_inv (newCx_inv WInv.empty "a") "a" _ none none (argOK_none _)
+
+example : (exT.obj? "a").map (fun o => (o.rep, o.ids)) = some (0, [1, 1, 1, 2, 3, 4, 1]) ∧ exT.next = 5 := by decide
+
+/-- `b = copy.deepcopy(a)`: `b` gets the identities 5 (representation) and ONE new dict object (6) for the
+three points and the triangle, 7, 8, 9 for the edges; four cells are allocated, not seven -/
+example : (deepcopyOp exT "a" "b").1 = .ok () ∧
+    ((deepcopyOp exT "a" "b").2.obj? "b").map (fun o => (o.rep, o.ids)) = some (5, [6, 6, 6, 7, 8, 9, 6]) ∧
+    (deepcopyOp exT "a" "b").2.next = 10 := ⟨rfl, by decide, by decide⟩
+example := deepcopyOp_fresh exT_inv "a" "b" _ rfl
+example := deepcopyOp_contents exT_inv "a" "b" _ rfl
+example := deepcopyOp_sharing exT_inv "a" "b" _ rfl
+
+/-- four points; `a[2] = a[1]; a[3] = a[1]`: the first three simplices hold the dict object 1, the fourth its
+own (4); `a[1]["k5"] = 7` -/
+def exP : World :=
+  let w1 := (addFacesOp (newCx {} "a") "a" [] (some (.u 1)) none).2
+  let w2 := (addFacesOp w1 "a" [] (some (.u 2)) none).2
+  let w3 := (addFacesOp w2 "a" [] (some (.u 3)) none).2
+  let w4 := (addFacesOp w3 "a" [] (some (.u 4)) none).2
+  let w5 := (setAttrOp w4 "a" (.u 2) 1).2
+  let w6 := (setAttrOp w5 "a" (.u 3) 1).2
+  (dictSetOp w6 "a" (.u 1) 5 7).2
+
+theorem exP_inv : WInv exP := by
+  have h1 := addFacesOp_inv (newCx_inv WInv.empty "a") "a" [] (some (.u 1)) none (argOK_none _)
+  have h2 := addFacesOp_inv h1 "a" [] (some (.u 2)) none (argOK_none _)
+  have h3 := addFacesOp_inv h2 "a" [] (some (.u 3)) none (argOK_none _)
+  have h4 := addFacesOp_inv h3 "a" [] (some (.u 4)) none (argOK_none _)
+  have h5 := setAttrOp_inv h4 "a" (.u 2) 1 (by decide)
+  have h6 := setAttrOp_inv h5 "a" (.u 3) 1 (by decide)
+  exact dictSetOp_inv h6 "a" (.u 1) 5 7
+
+example : (exP.obj? "a").map (fun o => (o.rep, o.attrs)) =
+      some (0, [(.u 1, 1), (.u 2, 1), (.u 3, 1), (.u 4, 4)]) ∧ exP.next = 5 := by decide
+
+/-- the deep copy of `exP`: identities `[6, 6, 6, 7]` (the former definition gave `[6, 7, 8, 9]`), the shared
+dict has the content of the source's; and `b[1]["k5"] = 9` is seen through `b[2]` and `b[3]` but not through
+`b[4]` nor through `a` -/
+example : ((deepcopyOp exP "a" "b").2.obj? "b").map (fun o => (o.rep, o.attrs)) =
+      some (5, [(.u 1, 6), (.u 2, 6), (.u 3, 6), (.u 4, 7)]) ∧
+    (deepcopyOp exP "a" "b").2.cell? 6 = some [(5, 7)] ∧ (deepcopyOp exP "a" "b").2.cell? 7 = some [] ∧
+    (deepcopyOp exP "a" "b").2.next = 8 := by decide
+example :
+    let w1 := (deepcopyOp exP "a" "b").2
+    let w2 := (dictSetOp w1 "b" (.u 1) 5 9).2
+    (w2.obj? "b").map (fun o => [o.dictOf w2 (.u 1), o.dictOf w2 (.u 2), o.dictOf w2 (.u 3), o.dictOf w2 (.u 4)]) =
+      some [[(5, 9)], [(5, 9)], [(5, 9)], []] ∧
+    (w2.obj? "a").map (fun o => [o.dictOf w2 (.u 1), o.dictOf w2 (.u 2), o.dictOf w2 (.u 3), o.dictOf w2 (.u 4)]) =
+      some [[(5, 7)], [(5, 7)], [(5, 7)], []] := by decide
+example := deepcopyOp_sharing exP_inv "a" "b" _ rfl
+
+/-- the object of the correspondence check, as a literal: `attrs = [(a,1),(b,1),(c,1),(d,2)]`, `next = 5` ↦
+`[(a,6),(b,6),(c,6),(d,7)]` -/
+example :
+    let s : Obj := { rep := 0, c := emptyC, attrs := [(.u 1, 1), (.u 2, 1), (.u 3, 1), (.u 4, 2)] }
+    let w : World := { objs := [("s", s)], cells := [(1, [(1, 1)]), (2, [])], next := 5 }
+    ((deepcopyOp w "s" "t").2.obj? "t").map (fun o => (o.rep, o.attrs)) =
+      some (5, [(.u 1, 6), (.u 2, 6), (.u 3, 6), (.u 4, 7)]) ∧
+    (deepcopyOp w "s" "t").2.cells = [(1, [(1, 1)]), (2, []), (6, [(1, 1)]), (7, [])] := by decide
 
 end W
